@@ -374,6 +374,26 @@ def generate(rng, tier):
             yield Case(["impl.set.udp.calc_checksum_ipv6.big\t%s\t%s\t%s\t%d" % (hx(udp_hdr(rng, 0)), hx(src), hx(dst), U32 - 8)], {"k": "big.udp6"})
             h = tcp_hdr(rng, 0)
             yield Case(["impl.set.tcpslice.calc_checksum_ipv6.big\t%s\t%s\t%s\t%d" % (hx(h), hx(src), hx(dst), U32)], {"k": "big.tcps6"})
+    yield from _builder_limit_cases(rng, tier)
+
+
+def _builder_limit_cases(rng, tier):
+    """builder payloads (packet_builder.rs is anchored in C14): C10's configurations with payload lengths
+    at limit-2..limit+2 of every stack and at the fixed field limits, judged by C10's reference builder"""
+    import random as _random
+    from . import c10
+    r2 = _random.Random(rng.randrange(1 << 30))
+    k = 0
+    for c in c10.generate(r2, "quick"):
+        pl = c.meta.get("payload", "")
+        if not pl.startswith("len:"):
+            continue
+        k += 1
+        if tier == "quick" and k % 3 and not pl.endswith(":165"):
+            continue
+        c.meta["k"] = "builder"
+        c.meta["L"] = sum(len(l) for l in c.lines)
+        yield c
 
 
 def is_trivial(c):
@@ -885,6 +905,9 @@ def oracle(c):
     if c.meta.get("L") != sum(len(l) for l in c.lines):
         return []  # lines altered by the generic shrinker: not judged
     k = c.meta.get("k")
+    if k == "builder":
+        from . import c10
+        return c10.oracle(c)
     f = ORACLES.get(k)
     if f is None:
         return [("unknown-case-kind", {"k": k})]
